@@ -37,7 +37,8 @@ EXTENDS Naturals, Sequences, FiniteSets, TLC
 
 CONSTANTS
   NConn,      \* connections are 1..NConn
-  MaxReq,     \* requests per connection
+  MaxReq,     \* requests on connection 1
+  MaxReq2,    \* requests on every other connection (<= MaxReq)
   Protos,     \* subset of {"h1","h2","auto"}: configurations explored (fixed in Init)
   TlsModes,   \* subset of BOOLEAN
   MakeModes,  \* subset of BOOLEAN: make-service future gated by the environment
@@ -48,6 +49,7 @@ CONSTANTS
 
 Conn == 1..NConn
 Req  == 1..MaxReq
+NReq(i) == IF i = 1 THEN MaxReq ELSE MaxReq2
 
 VARIABLES
   cfg,         \* [proto, tls, makeGated]
@@ -64,15 +66,15 @@ VARIABLES
   nfaults,
   srvAtSig,    \* history: srv when the signal fired
   oas,         \* history: connections with a live driver when the signal was processed
-  mode, hist, nenv  \* generation discipline (constant when ~GenMode)
+  mode, hist, nenv, plan  \* generation discipline (constant when ~GenMode)
 
 gvars == <<cfg, srv, cause, acc, making, mk, sigFired, watchClosed, listener, backlog, nfaults, srvAtSig, oas>>
-vars  == <<cfg, srv, cause, acc, making, mk, sigFired, watchClosed, listener, backlog, c, nfaults, srvAtSig, oas, mode, hist, nenv>>
+vars  == <<cfg, srv, cause, acc, making, mk, sigFired, watchClosed, listener, backlog, c, nfaults, srvAtSig, oas, mode, hist, nenv, plan>>
 
 Live      == {"tls", "sniff", "h1", "h2"}
 InFlight  == {"started", "handler", "respHead", "respBody"}
 
-InitReq  == [sent |-> 0, st |-> "none", gate |-> "shut", ch |-> 0, sas |-> FALSE]
+InitReq  == [sent |-> 0, st |-> "none", gate |-> "shut", sas |-> FALSE]
 InitConn == [cl     |-> "new",    \* "new"|"queued"|"cancelled"|"open"|"gone"|"refused"
              kind   |-> "h1",     \* what the client speaks: "h1" (raw scripted) | "h2" (hyper's client)
              plain  |-> FALSE,    \* client sends plain bytes to a TLS listener (stalled / failed handshake)
@@ -92,6 +94,10 @@ Init ==
   /\ c = [i \in Conn |-> InitConn]
   /\ nfaults = 0 /\ srvAtSig = "none" /\ oas = {}
   /\ mode = (IF GenMode THEN "env" ELSE "free") /\ hist = <<>> /\ nenv = 0
+  \* generation only: the position of the signal is drawn uniformly (a random simulation would otherwise
+  \* fire it early most of the time); the loss of the listener is rare and late
+  /\ plan \in (IF GenMode THEN [sigAt : 0..GenLen, lostAt : {GenLen \div 2, GenLen + 1, GenLen + 2, GenLen + 3}]
+                         ELSE {[sigAt |-> 0, lostAt |-> 0]})
 
 -----------------------------------------------------------------------------
 (* helpers *)
@@ -112,11 +118,14 @@ Abstract == [srv |-> srv,
 (* generation discipline: environment steps only at "env", internal steps only while settling *)
 Env(rec) == IF GenMode
             THEN /\ mode = "env" /\ nenv < GenLen
+                 /\ IF rec.a = "Signal" THEN nenv >= plan.sigAt ELSE (sigFired \/ nenv < plan.sigAt)
+                 /\ (rec.a = "ListenerLost" => nenv >= plan.lostAt)
                  /\ \E ns \in BOOLEAN : /\ mode' = IF ns THEN "env" ELSE "settle"
                                         /\ hist' = Append(hist, [rec EXCEPT !.ns = ns])
                  /\ nenv' = nenv + 1
-            ELSE UNCHANGED <<mode, hist, nenv>>
-Int == /\ (GenMode => mode = "settle") /\ UNCHANGED <<mode, hist, nenv>>
+                 /\ UNCHANGED plan
+            ELSE UNCHANGED <<mode, hist, nenv, plan>>
+Int == /\ (GenMode => mode = "settle") /\ UNCHANGED <<mode, hist, nenv, plan>>
 Rec(a, i, k, p, ok) == [a |-> a, c |-> i, k |-> k, p |-> p, ok |-> ok, ns |-> FALSE]
 
 -----------------------------------------------------------------------------
@@ -143,15 +152,18 @@ CancelConnect(i) ==
   /\ UNCHANGED <<cfg, srv, cause, acc, making, mk, sigFired, watchClosed, listener, backlog, srvAtSig, oas>>
   /\ Env(Rec("CancelConnect", i, 0, "", TRUE))
 
-\* a well-behaved client sends the next part of request k: head in two parts, body in two parts
-\* (hyper's HTTP/2 client sends the head in one piece); request k+1 only after response k
+\* a well-behaved client sends the next part of request k: head in two parts (H1, H2), then the body (B;
+\* the harness splits it again into B1 B2, which the server side cannot tell apart from B: the handler
+\* is already running and waits for the end of the body).  hyper's HTTP/2 client sends the head in one
+\* piece.  Request k+1 only after response k.
 Send(i, k) ==
   /\ ClientSeesOpen(i) /\ c[i].behave /\ ~c[i].plain
-  /\ c[i].rq[k].sent < 4
+  /\ k <= NReq(i)
+  /\ c[i].rq[k].sent < 3
   /\ \A j \in Req : j < k => c[i].rq[j].st = "done"
   /\ RqSet(i, k, "sent", IF c[i].kind = "h2" /\ c[i].rq[k].sent = 0 THEN 2 ELSE c[i].rq[k].sent + 1)
   /\ UNCHANGED gvars
-  /\ Env(Rec("Send", i, k, <<"H1", "H2", "B1", "B2">>[c[i].rq[k].sent + 1], TRUE))
+  /\ Env(Rec("Send", i, k, <<"H1", "H2", "B">>[c[i].rq[k].sent + 1], TRUE))
 
 \* FAULTS of an established connection
 Disconnect(i) ==
@@ -173,18 +185,28 @@ Garbage(i) ==
   /\ UNCHANGED <<cfg, srv, cause, acc, making, mk, sigFired, watchClosed, listener, backlog, srvAtSig, oas>>
   /\ Env(Rec("Garbage", i, 0, "", TRUE))
 
-\* the schedule lets the handler of request k return (ok), or makes it fail (FAULT)
+\* the schedule lets the handler of request k return (ok), or makes it fail (FAULT).  The handler of the
+\* harness first reads the whole request body, then waits for its gate; hyper's reaction to the returned
+\* response / error is deterministic and local to the connection, so it is part of the same step:
+\* response head written; on an error HTTP/1 closes the connection, HTTP/2 resets the stream only.
 Gate(i, k, ok) ==
+  /\ c[i].sc \in {"h1", "h2"}
   /\ c[i].rq[k].st \in {"started", "handler"} /\ c[i].rq[k].gate = "shut"
   /\ (~ok => nfaults < MaxFaults)
-  /\ RqSet(i, k, "gate", IF ok THEN "ok" ELSE "err")
+  /\ IF c[i].rq[k].st = "started" THEN RqSet(i, k, "gate", IF ok THEN "ok" ELSE "err")
+     ELSE IF ok THEN c' = [c EXCEPT ![i].rq[k].gate = "ok", ![i].rq[k].st = "respHead"]
+     ELSE c' = [c EXCEPT ![i].rq[k].gate = "err", ![i].rq[k].st = "failed", ![i].herr = TRUE,
+                         ![i].sc = IF c[i].sc = "h1" THEN "closed" ELSE @]
   /\ nfaults' = IF ok THEN nfaults ELSE nfaults + 1
   /\ UNCHANGED <<cfg, srv, cause, acc, making, mk, sigFired, watchClosed, listener, backlog, srvAtSig, oas>>
   /\ Env(Rec("Gate", i, k, "", ok))
-\* the schedule releases the next chunk of the response body
+\* the schedule releases the next chunk of the response body (two chunks); hyper writes it at once; after
+\* the last one an HTTP/1 connection whose keep-alive was disabled by graceful_shutdown closes
 Chunk(i, k) ==
-  /\ c[i].rq[k].st \in {"respHead", "respBody"} /\ c[i].rq[k].ch < 2
-  /\ RqSet(i, k, "ch", c[i].rq[k].ch + 1)
+  /\ c[i].sc \in {"h1", "h2"}
+  /\ c[i].rq[k].st \in {"respHead", "respBody"}
+  /\ IF c[i].rq[k].st = "respHead" THEN RqSet(i, k, "st", "respBody")
+     ELSE c' = [c EXCEPT ![i].rq[k].st = "done", ![i].sc = IF c[i].sc = "h1" /\ c[i].told > 0 THEN "closed" ELSE @]
   /\ UNCHANGED gvars
   /\ Env(Rec("Chunk", i, k, "", TRUE))
 
@@ -230,15 +252,9 @@ PollSignal ==
   /\ UNCHANGED <<cfg, acc, sigFired, listener, nfaults, srvAtSig>>
   /\ Int
 
-Prepare ==
-  /\ srv = "running" /\ ~sigFired /\ acc = "Preparing"
-  /\ acc' = "Accepting"
-  /\ UNCHANGED <<cfg, srv, cause, making, mk, sigFired, watchClosed, listener, backlog, c, nfaults, srvAtSig, oas>>
-  /\ Int
-
 \* Accept: `Accept => ~sigFired` is the first clause of C07
 Accept ==
-  /\ srv = "running" /\ ~sigFired /\ acc = "Accepting"
+  /\ srv = "running" /\ ~sigFired /\ acc \in {"Preparing", "Accepting"}   \* Preparing: poll_ready_ref is ready at once
   /\ IF backlog # <<>>
      THEN LET i == Head(backlog) IN
           IF c[i].cl = "cancelled"
@@ -248,10 +264,15 @@ Accept ==
                ELSE \* dead request skipped
                     /\ backlog' = Tail(backlog)
                     /\ UNCHANGED <<cfg, srv, cause, acc, making, mk, sigFired, watchClosed, listener, c, nfaults, srvAtSig, oas>>
-          ELSE /\ backlog' = Tail(backlog) /\ making' = i /\ acc' = "Making"
-               /\ mk' = IF cfg.makeGated THEN "none" ELSE "ok"
-               /\ c' = [c EXCEPT ![i].cl = "open", ![i].sc = "making"]
-               /\ UNCHANGED <<cfg, srv, cause, sigFired, watchClosed, listener, nfaults, srvAtSig, oas>>
+          ELSE IF cfg.makeGated
+               THEN \* State::Making: the make-service future is pending, nothing else is accepted meanwhile
+                    /\ backlog' = Tail(backlog) /\ making' = i /\ acc' = "Making" /\ mk' = "none"
+                    /\ c' = [c EXCEPT ![i].cl = "open", ![i].sc = "making"]
+                    /\ UNCHANGED <<cfg, srv, cause, sigFired, watchClosed, listener, nfaults, srvAtSig, oas>>
+               ELSE \* make future ready in the same poll: driver spawned, back to Preparing
+                    /\ backlog' = Tail(backlog) /\ acc' = "Preparing"
+                    /\ c' = [c EXCEPT ![i].cl = "open", ![i].sc = FirstStage]
+                    /\ UNCHANGED <<cfg, srv, cause, making, mk, sigFired, watchClosed, listener, nfaults, srvAtSig, oas>>
      ELSE /\ listener = "lost"
           /\ ServerEnds("errAccept", "listener") /\ UNCHANGED <<cfg, acc, sigFired, listener, nfaults, srvAtSig>>
   /\ Int
@@ -312,24 +333,20 @@ ConnFails(i) ==
   /\ UNCHANGED gvars
   /\ Int
 
-\* hyper, per request: head parsed => handler called; body complete; handler returns; chunks written
+\* hyper, per request: head parsed => handler called; body complete => the handler waits for / has its gate
 ReqStep(i, k) ==
   /\ c[i].sc \in {"h1", "h2"} /\ ~(c[i].cl = "gone" \/ c[i].half \/ c[i].junk)
   /\ (c[i].sc = "h1" => k = Cur(i))
   /\ LET r == c[i].rq[k]
-         closeAfter == c[i].sc = "h1" /\ c[i].told > 0       \* keep-alive disabled: close after this exchange
      IN \/ /\ r.st = "none" /\ r.sent >= 2
            /\ \/ /\ RqSet(i, k, "st", "started")
               \/ /\ c[i].sc = "h2" /\ c[i].told > 0           \* stream racing with GOAWAY may be refused
                  /\ RqSet(i, k, "st", "refused")
-        \/ /\ r.st = "started" /\ r.sent = 4 /\ RqSet(i, k, "st", "handler")
-        \/ /\ r.st = "handler" /\ r.gate = "ok" /\ RqSet(i, k, "st", "respHead")
-        \/ /\ r.st = "handler" /\ r.gate = "err"
-           /\ c' = [c EXCEPT ![i].rq[k].st = "failed", ![i].herr = TRUE,
-                             ![i].sc = IF c[i].sc = "h1" THEN "closed" ELSE @]
-        \/ /\ r.st = "respHead" /\ r.ch >= 1 /\ RqSet(i, k, "st", "respBody")
-        \/ /\ r.st = "respBody" /\ r.ch = 2
-           /\ c' = [c EXCEPT ![i].rq[k].st = "done", ![i].sc = IF closeAfter THEN "closed" ELSE @]
+        \/ /\ r.st = "started" /\ r.sent = 3
+           /\ IF r.gate = "shut" THEN RqSet(i, k, "st", "handler")
+              ELSE IF r.gate = "ok" THEN RqSet(i, k, "st", "respHead")
+              ELSE c' = [c EXCEPT ![i].rq[k].st = "failed", ![i].herr = TRUE,
+                                  ![i].sc = IF c[i].sc = "h1" THEN "closed" ELSE @]
   /\ UNCHANGED gvars
   /\ Int
 
@@ -343,7 +360,7 @@ H2Close(i) ==
   /\ Int
 
 Internal ==
-  \/ PollSignal \/ Prepare \/ Accept \/ Make
+  \/ PollSignal \/ Accept \/ Make
   \/ \E i \in Conn : DriverTold(i) \/ TlsStep(i) \/ Sniff(i) \/ ConnFails(i) \/ H2Close(i)
   \/ \E i \in Conn, k \in Req : ReqStep(i, k)
 
@@ -360,7 +377,7 @@ Environment ==
 Settled ==
   /\ GenMode /\ mode = "settle" /\ ~ENABLED Internal
   /\ mode' = "env" /\ hist' = Append(hist, [a |-> "Obs", exp |-> Abstract])
-  /\ UNCHANGED <<cfg, srv, cause, acc, making, mk, sigFired, watchClosed, listener, backlog, c, nfaults, srvAtSig, oas, nenv>>
+  /\ UNCHANGED <<cfg, srv, cause, acc, making, mk, sigFired, watchClosed, listener, backlog, c, nfaults, srvAtSig, oas, nenv, plan>>
 
 Next == Environment \/ Internal \/ Settled
 
